@@ -77,7 +77,15 @@ fn preload(piece: &OrchestrationPiece) -> std::io::Result<Cache> {
         let mut results: Vec<(Option<Arc<PathBuf>>, Vec<u8>)> = Vec::new();
 
         if file.metadata.is_padding_file { 
-            results.push((None, vec![0; file.read_length as usize]));
+            // The padding length is only declared by the torrent: a length that cannot be allocated is an error
+            // for this piece, not an abort of the process.
+            let padding_length = usize::try_from(file.read_length)
+                .map_err(|error| std::io::Error::new(std::io::ErrorKind::OutOfMemory, error))?;
+            let mut padding: Vec<u8> = Vec::new();
+            padding.try_reserve_exact(padding_length)
+                .map_err(|error| std::io::Error::new(std::io::ErrorKind::OutOfMemory, error))?;
+            padding.resize(padding_length, 0);
+            results.push((None, padding));
         } else if file.metadata.searches.is_none() {
             // Only a segment of an empty file gets here without candidates: it contributes no bytes.
             results.push((None, Vec::new()));
